@@ -9,6 +9,9 @@ Streams
         seg = `L<str>` | `V<str>` | `F<str>:<str>`
         → model results \t spec results
   asis  n <value>                               → word limit of the pinned code (D12) \t repaired
+  multi k | (spec bad sub ext | k v … | reserved… | ast) × k | op | op …
+        several objects in one process; op = `N i` (construct object i), `B i k v …` (bind on object i),
+        `C i` (call object i) → `i=result` per call: Model.runW \t each object's own Spec run
 -/
 namespace PlasVerif.Driver.C15
 open PlasVerif.Driver PlasVerif.Model.Filenames PlasVerif.Spec.Filenames
@@ -53,7 +56,75 @@ def showItem : Item → String
   | .name s => "N" ++ showStr s
   | .alts xs => "L" ++ "/".intercalate (xs.map showStr)
 
+/-- description of one object of a `multi` case -/
+structure GenD where
+  cfg : Config
+  model : Option State
+  spec : Option SState
+
+def genD? : List (List String) → Option GenD
+  | [[spec, bad, sub, ext], vars, reserved, ast] => do
+    let spec ← str? spec; let bad ← str? bad; let sub ← str? sub; let ext ← str? ext
+    let vars ← env? vars; let reserved ← reserved.mapM str?
+    let cfg : Config := { bad := bad, sub := sub, ext := ext }
+    let sp : Option SState := match ast with
+      | ["-"] => none
+      | _ => (ast? ast).map fun (st, w) =>
+        let (st, w) := if w.isEmpty then (st.dropLast, st.getLast?.toList) else (st, w)
+        sinit st w vars reserved
+    pure { cfg := cfg, model := (parseTemplate spec).map (initial · vars reserved), spec := sp }
+  | _ => none
+
+def chunks4 : List (List String) → List (List (List String))
+  | a :: b :: c :: d :: r => [a, b, c, d] :: chunks4 r
+  | _ => []
+
+inductive MOp where | new (i : Nat) | bind (i : Nat) (b : Env) | call (i : Nat)
+
+def mop? : List String → Option MOp
+  | ["N", i] => i.toNat?.map .new
+  | ["C", i] => i.toNat?.map .call
+  | "B" :: i :: kv => do let i ← i.toNat?; let b ← env? kv; pure (.bind i b)
+  | _ => none
+
+/-- the Spec side: every object answers from its own state and its own pending bindings -/
+def specMulti (cfgs : List Config) : List (SState × Env) → List MOp → List String
+  | _, [] => []
+  | w, .new _ :: ops => specMulti cfgs w ops      -- all objects are in `w` from the start (independent of creation time)
+  | w, .bind i b :: ops => specMulti cfgs (modifyAt (fun x => (x.1, x.2 ++ b)) i w) ops
+  | w, .call i :: ops =>
+    match w[i]?, cfgs[i]? with
+    | some (sst, pend), some cfg =>
+      let (sst', r) := srequest cfg sst pend
+      s!"{i}={showResult r}" :: specMulti cfgs (modifyAt (fun _ => (sst', [])) i w) ops
+    | _, _ => "bad" :: specMulti cfgs w ops
+
+def handleMulti (rest : List String) : String :=
+  match splitAll "|" rest with
+  | [k] :: secs =>
+    match k.toNat? with
+    | some k =>
+      match ((chunks4 (secs.take (4 * k))).mapM genD?), (secs.drop (4 * k)).mapM mop? with
+      | some gens, some ops =>
+        let model := match gens.mapM (fun (g : GenD) => g.model.map fun st => ({ cfg := g.cfg, st := st } : Gen)) with
+          | some gs =>
+            let wops := ops.filterMap fun (o : MOp) =>
+              match o with
+              | MOp.new i => gs[i]?.map WOp.new
+              | MOp.bind i b => some (WOp.bind i b)
+              | MOp.call i => some (WOp.call i)
+            "m:" ++ joinSp ((runW [] wops).map fun (ir : Nat × Result) => s!"{ir.1}={showResult ir.2}")
+          | none => "unsupported"
+        let spec := match gens.mapM GenD.spec with
+          | some ss => "m:" ++ joinSp (specMulti (gens.map GenD.cfg) (ss.map (·, [])) ops)
+          | none => "-"
+        s!"{model}\t{spec}"
+      | _, _ => "bad-op"
+    | none => "bad-op"
+  | _ => "bad-op"
+
 def handle : List String → String
+  | "multi" :: rest => handleMulti rest
   | ["parse", spec] =>
     match str? spec with
     | some s => match parseTemplate s with
